@@ -28,6 +28,14 @@ from . import fsmon
 EXIT_CRASH = 77
 
 
+def _safe_str(e):
+    """str(e), for exception classes whose own __str__ is broken."""
+    try:
+        return str(e)
+    except Exception:
+        return repr(getattr(e, "args", "?"))
+
+
 class _FileProxy:
     """Forwarding proxy so that write() calls become steps."""
 
@@ -203,7 +211,7 @@ def run(setup, op, root, plan=None, include_reads=False, deterministic_uuid=True
                     result["outcome"] = "returned"
                 except BaseException as e:  # noqa
                     result["outcome"] = "raised"
-                    result["error"] = [type(e).__name__, str(e)[:300], getattr(e, "errno", None)]
+                    result["error"] = [type(e).__name__, _safe_str(e)[:300], getattr(e, "errno", None)]
                 ctl.armed = False
             result["steps"] = ctl.steps
             result["fired"] = ctl.fired
